@@ -152,7 +152,8 @@ func (n *vnode) info(name string) os.FileInfo {
 
 // vfs implements all handler interfaces; which optional ones are visible is decided by the wrapper types below.
 type vfs struct {
-	delay      func() // optional: called at the start of every ReadAt / WriteAt handler call (schedule perturbation)
+	hlog       []hcall // every handler entry-point invocation (kept in memory for the adapter checks)
+	delay      func()  // optional: called at the start of every ReadAt / WriteAt handler call (schedule perturbation)
 	quiet      bool
 	calls      int64 // number of handler / object method invocations (atomic)
 	mu         sync.Mutex
@@ -416,8 +417,27 @@ func (v *vfs) fail(key string) error {
 	return v.failAt[key]
 }
 
+type hcall struct {
+	H, M, Path, Target string
+	Flags              uint32
+	PF                 FileOpenFlags
+	AF                 FileAttrFlags
+	Attrs              *FileStat
+}
+
+func (v *vfs) takeLog() []hcall {
+	v.mu.Lock()
+	defer v.mu.Unlock()
+	l := v.hlog
+	v.hlog = nil
+	return l
+}
+
 func (v *vfs) logReq(h string, r *Request) {
 	atomic.AddInt64(&v.calls, 1)
+	v.mu.Lock()
+	v.hlog = append(v.hlog, hcall{H: h, M: r.Method, Path: r.Filepath, Target: r.Target, Flags: r.Flags, PF: r.Pflags(), AF: r.AttrFlags(), Attrs: r.Attributes()})
+	v.mu.Unlock()
 	a := r.AttrFlags()
 	f := r.Pflags()
 	fl := 0
@@ -704,6 +724,9 @@ func (p plainLister) ListAt(dst []os.FileInfo, off int64) (int, error) {
 func (v *vfs) Filelist(r *Request) (ListerAt, error) { return v.listing(r, "Filelist", true) }
 func (v *vfs) Lstat(r *Request) (ListerAt, error)    { return v.listing(r, "Lstat", false) }
 func (v *vfs) RealPath(p string) (string, error) {
+	v.mu.Lock()
+	v.hlog = append(v.hlog, hcall{H: "RealPath", M: "RealPath", Path: p})
+	v.mu.Unlock()
 	v.ev("Handler", kv{"h": "RealPath", "method": "RealPath", "path": p, "target": "", "flags": 0})
 	if v.realpath != nil {
 		return v.realpath(p)
@@ -711,6 +734,9 @@ func (v *vfs) RealPath(p string) (string, error) {
 	return cleanPath(p), nil
 }
 func (v *vfs) Readlink(p string) (string, error) {
+	v.mu.Lock()
+	v.hlog = append(v.hlog, hcall{H: "Readlink", M: "Readlink", Path: p})
+	v.mu.Unlock()
 	v.ev("Handler", kv{"h": "Readlink", "method": "Readlink", "path": p, "target": "", "flags": 0})
 	if e := v.fail("readlink:" + p); e != nil {
 		return "", e
@@ -782,6 +808,24 @@ type listReadlink struct{ v *vfs }
 func (l listReadlink) Filelist(r *Request) (ListerAt, error) { return l.v.Filelist(r) }
 func (l listReadlink) Readlink(p string) (string, error)     { return l.v.Readlink(p) }
 
+type listLR struct{ v *vfs }
+
+func (l listLR) Filelist(r *Request) (ListerAt, error) { return l.v.Filelist(r) }
+func (l listLR) Lstat(r *Request) (ListerAt, error)    { return l.v.Lstat(r) }
+func (l listLR) RealPath(p string) (string, error)     { return l.v.RealPath(p) }
+
+type listLK struct{ v *vfs }
+
+func (l listLK) Filelist(r *Request) (ListerAt, error) { return l.v.Filelist(r) }
+func (l listLK) Lstat(r *Request) (ListerAt, error)    { return l.v.Lstat(r) }
+func (l listLK) Readlink(p string) (string, error)     { return l.v.Readlink(p) }
+
+type listRK struct{ v *vfs }
+
+func (l listRK) Filelist(r *Request) (ListerAt, error) { return l.v.Filelist(r) }
+func (l listRK) RealPath(p string) (string, error)     { return l.v.RealPath(p) }
+func (l listRK) Readlink(p string) (string, error)     { return l.v.Readlink(p) }
+
 type listAll struct{ v *vfs }
 
 func (l listAll) Filelist(r *Request) (ListerAt, error) { return l.v.Filelist(r) }
@@ -820,6 +864,12 @@ func (v *vfs) handlers(opt string) Handlers {
 	switch {
 	case has('l') && has('r') && has('k'):
 		h.FileList = listAll{v}
+	case has('l') && has('r'):
+		h.FileList = listLR{v}
+	case has('l') && has('k'):
+		h.FileList = listLK{v}
+	case has('r') && has('k'):
+		h.FileList = listRK{v}
 	case has('l'):
 		h.FileList = listLstat{v}
 	case has('r'):
